@@ -42,6 +42,8 @@ func nastyGraph() *world.Graph {
 		n.F["s"] = nasty[i%len(nasty)]
 		n.F["name"] = nasty[(i+1)%len(nasty)]
 		n.F["strs"] = []interface{}{nasty[(i+2)%len(nasty)], nasty[(i+3)%len(nasty)]}
+		// numbers a JSON writer must not print as is if they leak: beyond float32, and the largest finite float64
+		n.F["f"] = []float64{1e39, -1e39, 1.7976931348623157e308, 0.5, 2.5e-45, 3.4e38}[i%6]
 	}
 	return g
 }
